@@ -1152,3 +1152,45 @@ def c11_n(ctx):
 def c11_o(ctx):
     from .C03 import c03_e
     c03_e(ctx)
+
+
+@obligation('C11-p', 'T12', 'the log density that RandMaxVar hands to the MCMC kernels returns a '
+            'scalar: the batch-shaped value of evaluate() has its element selected first',
+            floor=1,
+            necessary='mcmc.nuts converts comparisons of the log density with float(); with the '
+                      'installed numpy float() of a (1, 1) array raises TypeError, so RandMaxVar '
+                      '(default sampler: nuts) cannot acquire a single point')
+def c11_p(ctx):
+    from .C20 import _scalarised
+    ctx.fact('numpy >= 2.x: float(a) raises TypeError unless a.ndim == 0; MaxVar.evaluate returns '
+             'an (n, 1) array')
+    rmv = ctx.cls('elfi.methods.bo.acquisition:RandMaxVar')
+    acq = ctx.own_method(rmv, 'acquire')
+    ex = ctx.ex(acq)
+    kernels = [c for c in ctx.calls(acq) if callee_name(c) in ('nuts', 'metropolis')]
+    if not kernels:
+        raise AnchorMissing('RandMaxVar.acquire does not call an MCMC kernel')
+    targets = set()
+    for c in kernels:
+        if len(c.args) >= 3 and isinstance(c.args[2], ast.Name):
+            targets.add(c.args[2].id)
+    inner = [n for n in ast.walk(acq.node) if isinstance(n, ast.FunctionDef) and
+             n.name in targets]
+    if not inner:
+        raise AnchorMissing('log-density callback of RandMaxVar.acquire')
+    batch = (pattern('self.evaluate(_)'),)
+    for fn in inner:
+        fi = [f for f in acq.module.all_functions if getattr(f, 'node', None) is fn]
+        if not fi:
+            raise AnchorMissing('nested function {} not indexed'.format(fn.name))
+        exi = ctx.ex(fi[0])
+        rets = [r for r in ast.walk(fn) if isinstance(r, ast.Return) and r.value is not None]
+        for r in rets:
+            v = exi.term(r.value)
+            if not any(find(v, p) is not None for p in batch):
+                continue
+            ctx.check(_scalarised(v, batch), acq, 'log density callback returns a scalar',
+                      'return float(np.squeeze(np.log(self.evaluate(theta))))',
+                      '`{}` returns the (1, 1)-shaped value of evaluate(): mcmc.nuts applies '
+                      'float() to comparisons with it - TypeError with the installed numpy, '
+                      'RandMaxVar cannot acquire'.format(src(r)[:60]), fn=fi[0], node=r)
